@@ -329,6 +329,8 @@ class Formatter:
         """Escapes the characters that cannot stand for themselves inside a
         double quoted string literal (the same in C, Go and Python)."""
         escapes = {"\\": "\\\\", '"': '\\"', "\n": "\\n", "\r": "\\r", "\t": "\\t"}
+        # A raw null character is no valid source text in Go and Python.
+        escapes["\0"] = "\\000"
         return "".join(escapes.get(char, char) for char in value)
 
     @final
